@@ -119,11 +119,11 @@ PROPS = {
     "C09": {
         "lean": ["Knut.Properties.C09", "Knut.Properties.C09Decimal", "Knut.Properties.C09Text", "Knut.Properties.C09Journal", "Knut.Properties.C09Cmd", "Knut.FactsAgree.TransTransaction"],
         "level": "proof",
-        "claim": "Proof (all three clauses, for every printable journal, on the model of the commands for a journal that is one file) + full correspondence. Properties/C09Journal.lean: C09_print_accepted (the printed text loads and the checker gives the reloaded journal the verdict of the original), C09_print_fixpoint / C09_print_rejected (knut print on the printed text of an accepted printable journal writes that text; a rejected one stays rejected), C09_print_idempotent(_bytes) (print is idempotent on its own output), C09_reports_equal (knut balance under ANY flag vector, valued or not, no restriction on price directives, gives the same bytes or fails alike on the directives loaded from the printed text and on the directives the journal was built from), C09_verdict_equal. Printable (PrintableDir / PrintableJournal, decidable) = what the journal syntax can carry: dates 0000..9999, names of Unicode letters/digits, decimal amounts, assertions with at least one balance, descriptions without a double quote, transactions as transaction.Create builds them. UNCONDITIONAL for texts: C09_loaded_printable (every directive the loader returns from ANY byte string is PrintableDir: the parser's soundness gives field tokens of the right lexical classes, time.Parse / NewFromString / the registry / transaction.Create incl. @accrue expansion give the rest; Proofs/PrintSound.lean), hence C09_print_idempotent: for EVERY input text, if knut print succeeds on it then knut print on its output writes the same bytes; C09_file_reports_equal: check verdict and every balance report (any flags) of the printed file equal those of the input file. Open: include trees are outside printFile (one file; C05 covers layout independence); the second elaboration model of Model/Commands.lean (Cmd.runPrint, used by C14) is not linked to FromSyntax.loadText by a theorem. Proved (all bookings, all amounts): C09_booking_normal_form (rebuilding the booking that print writes from the debit-side posting yields "
+        "claim": "Proof (all three clauses, for every printable journal, on the model of the commands for a journal that is one file) + full correspondence. Properties/C09Journal.lean: C09_print_accepted (the printed text loads and the checker gives the reloaded journal the verdict of the original), C09_print_fixpoint / C09_print_rejected (knut print on the printed text of an accepted printable journal writes that text; a rejected one stays rejected), C09_print_idempotent(_bytes) (print is idempotent on its own output), C09_reports_equal (knut balance under ANY flag vector, valued or not, no restriction on price directives, gives the same bytes or fails alike on the directives loaded from the printed text and on the directives the journal was built from), C09_verdict_equal. Printable (PrintableDir / PrintableJournal, decidable) = what the journal syntax can carry: dates 0000..9999, names of Unicode letters/digits, decimal amounts, assertions with at least one balance, descriptions without a double quote, transactions as transaction.Create builds them. UNCONDITIONAL for texts: C09_loaded_printable (every directive the loader returns from ANY byte string is PrintableDir: the parser's soundness gives field tokens of the right lexical classes, time.Parse / NewFromString / the registry / transaction.Create incl. @accrue expansion give the rest; Proofs/PrintSound.lean), hence C09_print_idempotent: for EVERY input text, if knut print succeeds on it then knut print on its output writes the same bytes; C09_file_reports_equal: check verdict and every balance report (any flags) of the printed file equal those of the input file. ONE ELABORATION MODEL (Properties/C09Cmd.lean): C09_elab_agrees - on every file the parser accepts, Commands.elabFile (inside Cmd.run, the command model C14 compares with the binary) returns the directives FromSyntax.loadText returns, errs iff it errs, panics iff it panics (a validly encoded token is the token of a character; the two models of time.Parse and NewFromString agree on every string; same order of handling). The models differed on one input class (transaction.Create panic followed by a later directive the elaboration rejects: loadText said error, Cmd.run and the real binary panic); loadText was repaired. C09_cmd_print_is_printFile (Cmd.run .print on a file without include directives = printFile of its bytes), and for EVERY file system and include tree on the input side: C09_cmd_loaded_printable, C09_cmd_print_idempotent (knut print succeeds with out => knut print on a file holding out writes out), C09_cmd_reports_equal (knut balance, every flag vector, same outcome on that file as on the input), C09_cmd_verdict_equal (knut check). Open: check --write's printed assertions are not compared. Proved (all bookings, all amounts): C09_booking_normal_form (rebuilding the booking that print writes from the debit-side posting yields "
                  "the identical posting pair), C09_printed_quantity_nonneg, C09_reprint_same_line, C09_targets_line. Properties/C09Decimal.lean: C09_dec_scaled_roundtrip, C09_dec_string_roundtrip (parseDec (showDec r) = r for every decimal rational), C09_dec_string_shortest, "
                  "closure of decimals under +, x, negation. Properties/C09Text.lean (text level, all inputs): C09_text_open, C09_text_close, C09_text_price, C09_text_assertion, C09_text_transaction (a printed open/close/price/single- or multi-balance assertion/transaction - any padding, @performance targets, negative bookings via the booking normal form, description without double quote - of printable fields - any Unicode letters/digits, dates 0000..9999, decimal amounts - is loaded back by parser + elaboration as exactly that directive), C09_text_items (a rendering of items parses and loads to the elaboration of their field views), C09_text_decode (UTF-8 decoding of a Lean string inverts utf8EncodeChar, every Char). WHOLE JOURNALS: C09_text_journal_fixpoint - for every printable journal j (PrintableJournal, decidable: days in strictly increasing date order, none empty, every directive under its own date and printable) the text journal.Print writes loads back (parser model, elaboration, transaction.Create) to exactly the directives of j day by day in print order, journal.Builder regroups them into the days of j with the transactions in journal.Sort order, and printing that journal reproduces the text byte for byte; C09_sort_idempotent (transaction.Compare is a total preorder, Std.TransCmp); the hypothesis is what the builder and transaction.Create produce: C09_text_built_shape (every built journal is sorted, without empty days, directives under their own date), C09_text_built_printable, C09_text_printed_perm (the printed directives are a permutation of the directives the journal was built from), C09_text_created_normal_form / C09_text_loaded_normal_form (every transaction Create / the loader returns is in booking normal form, with or without @accrue); exJournal (3 days, all directive kinds, decided printable; the real binary reproduces its text). The printer's quote replacement is JournalPrinter.descText (character-wise), the identity on descriptions without a double quote (descText_id). The same clauses are also decided on every run on the REAL binary: `knut print` output is "
                  "compared byte for byte with the Lean model of journal.Print, the printed journal is fed back to `knut print` (must be accepted and reproduce itself byte for byte) and "
-                 "`knut balance` under a random flag vector must give byte-identical output on original and printed journal.",
+                 "`knut balance` under a random flag vector must give byte-identical output on original and printed journal; `knut print` = Cmd.run .print of the model byte for byte on the SAME input text (print_text: every case, and stream text of mutated texts - rejected inputs must be rejected alike, error vs panic distinguished).",
         "note": "Trusted: Lean kernel; axioms propext, Classical.choice, Quot.sound; sort.Slice modelled as a stable sort (transactions comparing equal print identically unless their "
                 "@performance targets differ); @accrue-annotated transactions are generated and expanded by Model/Accrual.",
         "rule": "lifecycle journals with negative/zero/trailing-zero/many-decimal amounts, @performance() with 0..n targets, multi-balance assertions followed by further assertions, several "
@@ -445,7 +445,7 @@ PROPS = {
     "C13": {
         "lean": ["Knut.Properties.C13", "Knut.Properties.C13Text"],
         "level": "proof",
-        "claim": "Proof (row level and text level, all eleven importers; acceptance of the carried balance assertions of revolut2 / revolut / interactivebrokers stays a hypothesis) + full correspondence. Lean row models (Model/Import/*.lean) from the records as encoding/csv / encoding/json decoded them "
+        "claim": "Proof (row level and text level, all eleven importers; for revolut2 / revolut / interactivebrokers, whose output carries the statement's balance assertions, acceptance is proved equivalent to the statement's balance column being consistent with its amounts) + full correspondence. Lean row models (Model/Import/*.lean) from the records as encoding/csv / encoding/json decoded them "
                  "to the directives added to the journal.Builder (explicit error / panic outcomes), printed by the model of journal.Print (C09); a specification-side reader per format "
                  "(Spec/ImportItems.lean: which records are booking rows, their date / currency / signed amount on the import account, carried balances and prices) and the predicate "
                  "Faithful (Spec/ImportSpec.lean). Proved for ALL record lists and field contents, for all eleven importers (swisscard2, swisscard, supercard, cumulus, postfinance, revolut2, "
@@ -457,7 +457,7 @@ PROPS = {
                  "predicate is complete and sound for Faithful (C13_monitor_complete, C13_monitor_sound, C13_matchesB_iff). C13_description_has_no_quote + C13_replaceQuotes_idempotent (transaction.Builder.Build stores a quote-free description, so the day's transactions are sorted by the "
                  "text that is printed; the printer's own replacement is idle). Kernel-checked witnesses: wise_conversion_two_transactions, swissquote_forex_pair_one_transaction "
                  "(by-design deviations), swissquote_sale_without_proceeds_is_a_sale (repaired behaviour). "
-                 "TEXT LEVEL, proved for all eleven importers and all statements (Properties/C13Text.lean, on the models: render = journal.Print of the importer's builder, loadText = parser model + elaboration, printFile = knut print on one file): C13_<importer>_printable - every emitted directive is PrintableDir, the hypothesis of the C09 round trip: valid names (C13_<importer>_wellformed), dates in the range of time.Parse (years 0000..9999, derived from the model of time.Parse for the five layouts), amounts decimal rationals (derived from the model of decimal.NewFromString, closed under the negations / sums / roundings the importers do), transactions built by transaction.Builder.Build whose quote replacement makes the description quote-free - nothing is assumed about free text; C13_text_parses - the emitted text parses (C13_text_parser_accepts) and loads to exactly the directives the importer built, in the order journal.Print writes them (a permutation of the order they were added in), and printing the reloaded journal gives the same text; C13_text_reprinted_with_opens - the file `one open per account dated before the first directive, blank line, output` is reproduced byte for byte by knut print whenever the checker accepts it; C13_text_accepted_with_opens / C13_text_valid - and the checker does accept it when the output consists of transactions and prices (C13_<importer>_tx_or_price: swisscard2, swisscard, supercard, cumulus, postfinance, wise, viac, swissquote) on accounts each opened once; C13_text_valid_prices_only (viac). OPEN: for revolut2, revolut, interactivebrokers the output carries the statement's balance assertions, whose acceptance depends on the statement (balances consistent from a zero opening balance): acceptance stays a hypothesis there; the statement decoders (encoding/csv, json, charmap) are outside the models. The same clauses are also decided on every run on the REAL output by knut's own parser, the Lean parser model, `knut print` on opens + output (accepted, byte-identical), over free text with quotes, separators, newlines, control characters and Unicode. Tie: `knut import <x>` as a subprocess on generated statements of every format (and the "
+                 "TEXT LEVEL, proved for all eleven importers and all statements (Properties/C13Text.lean, on the models: render = journal.Print of the importer's builder, loadText = parser model + elaboration, printFile = knut print on one file): C13_<importer>_printable - every emitted directive is PrintableDir, the hypothesis of the C09 round trip: valid names (C13_<importer>_wellformed), dates in the range of time.Parse (years 0000..9999, derived from the model of time.Parse for the five layouts), amounts decimal rationals (derived from the model of decimal.NewFromString, closed under the negations / sums / roundings the importers do), transactions built by transaction.Builder.Build whose quote replacement makes the description quote-free - nothing is assumed about free text; C13_text_parses - the emitted text parses (C13_text_parser_accepts) and loads to exactly the directives the importer built, in the order journal.Print writes them (a permutation of the order they were added in), and printing the reloaded journal gives the same text; C13_text_reprinted_with_opens - the file `one open per account dated before the first directive, blank line, output` is reproduced byte for byte by knut print whenever the checker accepts it; C13_text_accepted_with_opens / C13_text_valid - and the checker does accept it when the output consists of transactions and prices (C13_<importer>_tx_or_price: swisscard2, swisscard, supercard, cumulus, postfinance, wise, viac, swissquote) on accounts each opened once; C13_text_valid_prices_only (viac). For revolut2, revolut, interactivebrokers the output carries the statement's balance assertions; what is true is stated on the statement (Proofs/PrintImportBalances.lean): Consistent items - every balance the statement carries equals the sum, from a zero opening balance, of the amounts (less fees, per currency) of the booking rows up to and including its day (decidable). C13_text_accepted_iff_consistent - for every import Faithful to the statement's items, an asset/liability import account, every account booked on opened once before the first directive: the checker accepts opens + output IF AND ONLY IF the statement is consistent (C13_revolut2_accepted_iff, C13_revolut_accepted_iff, C13_interactivebrokers_accepted_iff); C13_text_valid_iff_consistent - knut print reproduces opens + output byte for byte if consistent, fails in processing if not. Kernel-checked consistent and inconsistent two-row revolut2 statement; the real binary agrees on both (import, then print on opens + output: reproduced / failed assertion). OPEN: the statement decoders (encoding/csv, json, charmap) are outside the models; the harness generates consistent statements only. The same clauses are also decided on every run on the REAL output by knut's own parser, the Lean parser model, `knut print` on opens + output (accepted, byte-identical), over free text with quotes, separators, newlines, control characters and Unicode. Tie: `knut import <x>` as a subprocess on generated statements of every format (and the "
                  "repository's eleven example inputs), stdout compared byte for byte with the Lean row model + printer for all eleven importers, also on a malformed stream (mutated "
                  "fields, structure, bytes, flags: same ok / error / panic outcome); the library functions the models rely on (decimal.NewFromString, time.Parse x 5 layouts, "
                  "strings.TrimSpace/Fields/Trim/Replacer, the importers' regular expressions, registry name checks) are compared with Go on structured and mutated strings.",
